@@ -626,4 +626,12 @@ def parse_pattern(src, N=None):
         if s.startswith('elif'):
             s = s[2:]
         s = s + '\n    pass\n'
-    return stmt_nf(ast.parse(s).body[0], N)
+    from . import canon
+    body = canon._block(ast.parse(s).body)
+    return stmt_nf(body[0], N)
+
+
+def parse_block(src):
+    """Parse statement source and bring it to the same canonical shape as loaded modules (canon.py)."""
+    from . import canon
+    return canon._block(ast.parse(src).body)
